@@ -9,8 +9,19 @@
 // inside the other operand's array (at the cell of designated lane aj); ca / cb = the result IS operand a / b (same pointer
 // or register variable, same stride / index list).  Operand values are always the ones held BEFORE the call.
 //
+// Designation families (Layout.tla DesLevels / DesFamilies) of the binary overloads: level "base" = operands a and b are given
+// by the SAME base pointer, each with its own stride / index list (distinct list objects unless ixo), and the two address
+// sequences are related as the family says (eq: identical; h1 / h2: agree in the first / second half of the lanes and differ
+// in the other; one: differ in exactly lane dl; perm: equal as multisets, permuted; any: unrelated); together with an in-place
+// mode (ca / cb) all three operands are one array with one address map.  Level "word" = separate storage, the operand WORDS
+// are related that way (the form for register and broadcast operands).
+//
+// OpenMP delivery environments (vh::with_env) of the bulk copies: 0 plain, 1 from inside an active parallel region, 2 / 3 the
+// process-wide thread-count setting is 1 / 5.
+//
 // case line:  <ci> C <row id> <seed> <sa> <sb> <sc> <idxmode a> <idxmode b> <idxmode c> <padmask> <valuemode> <alias> <aj>
-//             <ci> P <parcpy|parSetZero> <size> <nthreads> <pad> <seed>
+//                  [<level none|base|word> <family> <dl> <ixo 0|1>]
+//             <ci> P <parcpy|parSetZero> <size> <nthreads> <pad> <seed> [<env 0..3>]
 #include "goldilocks_base_field.hpp"
 #include "vh.hpp"
 #include <fcntl.h>
@@ -73,6 +84,9 @@ struct Operand
     __m512i r512;
 #endif
     Operand *same = nullptr; // in-place: this input operand IS that (result) operand
+    Operand *base = nullptr; // same base pointer: this input operand lives in the array of that operand (own stride / index list)
+    Operand *ixo = nullptr;  // ... and is given by the very same index-list object
+    size_t minext = 0;       // elements the operands sharing this array need
     const E *sloc = nullptr; // broadcast scalar living inside another operand's array
     E own;                   // broadcast scalar in storage of its own
     bool inmem() const { return kind == K_CONTIG || kind == K_STRIDE || kind == K_INDEX || kind == K_SCALARREF; }
@@ -96,8 +110,9 @@ struct Operand
             m = std::max(m, addr(k));
         return m + 1;
     }
-    E *ptr() { return same ? same->ptr() : (E *)mem.g.p; }
-    uint64_t *idxp() { return same ? same->idxp() : ib.g.p; }
+    E *ptr() { return same ? same->ptr() : (base ? base->ptr() : (E *)mem.g.p); }
+    uint64_t *idxp() { return same ? same->idxp() : (ixo ? ixo->idxp() : ib.g.p); }
+    uint64_t *cells() { return (uint64_t *)ptr(); }
     // the scalar argument: an lvalue (copied by a by-value parameter, bound by a reference parameter)
     const E &sref() const { return sloc ? *sloc : (kind == K_SCALARREF ? *(const E *)mem.g.p : own); }
     __m256i &reg256() { return same ? same->r256 : r256; }
@@ -221,6 +236,73 @@ struct RunOut
 
 enum Alias { AL_NONE, AL_SC, AL_SA, AL_CA, AL_CB };
 static const char *ALN[] = {"none", "sc", "sa", "ca", "cb"};
+enum DesLevel { DL_NONE, DL_BASE, DL_WORD };
+static const char *DLN[] = {"none", "base", "word"};
+enum DesFam { DF_NONE, DF_EQ, DF_H1, DF_H2, DF_ONE, DF_PERM, DF_ANY };
+static const char *DFN[] = {"none", "eq", "h1", "h2", "one", "perm", "any"};
+
+static bool all_distinct(const std::vector<uint64_t> &v)
+{
+    for (size_t i = 0; i < v.size(); i++)
+        for (size_t j = i + 1; j < v.size(); j++)
+            if (v[i] == v[j])
+                return false;
+    return true;
+}
+// a value different from ref[k]: what another lane of ref holds, a neighbour, or something unrelated below `range`
+static uint64_t other_than(vh::Rng &r, const std::vector<uint64_t> &ref, int k, uint64_t range, bool wordlevel)
+{
+    for (int tries = 0;; tries++)
+    {
+        uint64_t x;
+        switch (tries < 8 ? r.below(4) : 1)
+        {
+        case 0: x = ref[r.below(ref.size())]; break;
+        case 1: x = ref[k] + 1 + r.below(3); break;
+        case 2: x = wordlevel ? (ref[k] ^ (1ULL << r.below(64))) : (ref[k] ? ref[k] - 1 : ref[k] + 2); break;
+        default: x = wordlevel ? r.word() : r.below(range); break;
+        }
+        if (x != ref[k])
+            return x;
+    }
+}
+// a sequence related to ref as the family says (ref has at least two different entries for perm)
+static std::vector<uint64_t> related(vh::Rng &r, DesFam f, const std::vector<uint64_t> &ref, int dl, bool wordlevel)
+{
+    int L = (int)ref.size(), h = L / 2;
+    uint64_t range = *std::max_element(ref.begin(), ref.end()) + 6;
+    std::vector<uint64_t> v(ref);
+    switch (f)
+    {
+    case DF_H1:
+    case DF_H2:
+    {
+        int lo = f == DF_H1 ? h : 0;
+        uint64_t mask = r.below(3) == 0 ? r.below(1ULL << h) : (1ULL << h) - 1; // every lane of that half, or some of them
+        if (mask == 0)
+            mask = 1ULL << r.below(h);
+        for (int k = 0; k < h; k++)
+            if ((mask >> k) & 1)
+                v[lo + k] = other_than(r, ref, lo + k, range, wordlevel);
+        break;
+    }
+    case DF_ONE:
+        v[dl] = other_than(r, ref, dl, range, wordlevel);
+        break;
+    case DF_PERM:
+        for (int tries = 0; v == ref && tries < 1000; tries++)
+            for (int k = L - 1; k > 0; k--)
+                std::swap(v[k], v[r.below(k + 1)]);
+        break;
+    case DF_ANY:
+        for (int k = 0; k < L; k++)
+            v[k] = wordlevel ? r.word() : r.below(range);
+        break;
+    default:
+        break;
+    }
+    return v;
+}
 static bool is_scalar(const Operand &X) { return X.kind == K_SCALAR || X.kind == K_SCALARREF; }
 
 // array / register inputs (the broadcast scalar comes afterwards: it may live inside one of these arrays)
@@ -241,9 +323,40 @@ static void setup_input(Operand &X, const uint64_t *val, vh::Rng &garb, uint8_t 
             seen[k] = X.v[k] = C.kind == K_REG ? val[k] : C.mem.g.p[C.addr(k)];
         return;
     }
+    if (X.base)
+    {
+        // same base pointer: the operand lives in the other operand's array (already set up).  Cells the other operand does not
+        // designate take this operand's values; a cell designated by both holds one word, the one already there.
+        Operand &O = *X.base;
+        uint64_t *m = O.cells();
+        for (int k = 0; k < L; k++)
+        {
+            bool theirs = false;
+            for (int j = 0; j < L; j++)
+                theirs = theirs || O.addr(j) == X.addr(k);
+            if (!theirs)
+                m[X.addr(k)] = val[k];
+        }
+        for (int k = 0; k < L; k++)
+            seen[k] = X.v[k] = m[X.addr(k)];
+        if (!O.same)
+            O.mem.snapshot();
+        uint64_t g8[8];
+        for (int k = 0; k < 8; k++)
+            g8[k] = garb.next();
+        X.setreg(g8);
+        if (X.kind == K_INDEX && !X.ixo)
+        {
+            X.ib.make(L, pat ^ 0x5A);
+            for (int k = 0; k < L; k++)
+                X.ib.g.p[k] = X.idx[k];
+            X.ib.snapshot();
+        }
+        return;
+    }
     if (X.inmem() && X.kind != K_SCALARREF)
     {
-        X.mem.make(X.extent() + X.pad, pat);
+        X.mem.make(std::max(X.extent(), X.minext) + X.pad, pat);
         for (size_t i = 0; i < X.mem.g.n; i++)
             X.mem.g.p[i] = garb.next();
         for (int k = 0; k < L; k++)
@@ -311,7 +424,7 @@ static void one_run(const Row &row, Ctx &x, const uint64_t *va, const uint64_t *
     // result operand first: in the alias modes operand values are placed inside it
     if (C.inmem())
     {
-        C.mem.make(C.extent() + C.pad, pat ^ 0x22);
+        C.mem.make(std::max(C.extent(), C.minext) + C.pad, pat ^ 0x22);
         vh::Rng pre(seed ^ 0x5151515151515151ULL); // same stream in both runs; run 1 stores the complement
         for (size_t i = 0; i < C.mem.g.n; i++)
         {
@@ -332,10 +445,19 @@ static void one_run(const Row &row, Ctx &x, const uint64_t *va, const uint64_t *
             C.ib.g.p[k] = C.idx[k];
         C.ib.snapshot();
     }
-    if (!is_scalar(x.A))
-        setup_input(x.A, va, garb, pat, o.a);
-    if (!is_scalar(x.B))
+    if (x.A.base)
+    {
+        // the owner of the shared array first
         setup_input(x.B, vb, garb, pat ^ 0x11, o.b);
+        setup_input(x.A, va, garb, pat, o.a);
+    }
+    else
+    {
+        if (!is_scalar(x.A))
+            setup_input(x.A, va, garb, pat, o.a);
+        if (!is_scalar(x.B))
+            setup_input(x.B, vb, garb, pat ^ 0x11, o.b);
+    }
     if (is_scalar(x.A))
         setup_scalar(x.A, x.B, C, al, aj, va[0], garb, pat, o.a);
     if (is_scalar(x.B))
@@ -389,6 +511,16 @@ static void do_call(vh::Out &o, const std::vector<std::string> &t)
         if (t.size() > 12 && t[12] == ALN[i])
             al = (Alias)i;
     int aj = t.size() > 13 ? atoi(t[13].c_str()) : 0;
+    DesLevel dlv = DL_NONE;
+    DesFam des = DF_NONE;
+    for (int i = 0; i < 3; i++)
+        if (t.size() > 14 && t[14] == DLN[i])
+            dlv = (DesLevel)i;
+    for (int i = 0; i < 7; i++)
+        if (t.size() > 15 && t[15] == DFN[i])
+            des = (DesFam)i;
+    int dl = t.size() > 16 ? atoi(t[16].c_str()) : 0;
+    bool ixo = t.size() > 17 && atoi(t[17].c_str()) != 0;
     int L = row.L;
     Ctx x;
     Operand *ops[3] = {&x.A, &x.B, &x.C};
@@ -405,6 +537,91 @@ static void do_call(vh::Out &o, const std::vector<std::string> &t)
         X.pad = (!row.aligned && X.inmem() && ((padmask >> i) & 1)) ? 1 : 0;
     }
     aj = aj % L;
+    dl = dl % L;
+    auto misfit = [&](const char *what) {
+        fprintf(stderr, "designation %s %s %s does not fit row %s\n", DLN[dlv], DFN[des], what, row.id);
+        _exit(2);
+    };
+    if ((dlv == DL_NONE) != (des == DF_NONE) || (dlv != DL_NONE && row.op == OP_COPY))
+        misfit("(level / family)");
+    auto ismem = [](const Operand &X) { return X.kind == K_CONTIG || X.kind == K_STRIDE || X.kind == K_INDEX; };
+    auto addrs = [&](const Operand &X) {
+        std::vector<uint64_t> v;
+        for (int k = 0; k < L; k++)
+            v.push_back(X.addr(k));
+        return v;
+    };
+    if (dlv == DL_BASE)
+    {
+        if (!ismem(x.A) || !ismem(x.B) || !(al == AL_NONE || al == AL_CA || al == AL_CB))
+            misfit("(both operands must be arrays)");
+        if (al != AL_NONE)
+        {
+            // in place and same base: ONE array and ONE address map for a, b and the result (any other overlap of operands
+            // with the result is outside the property)
+            if (des != DF_EQ || !ismem(x.C))
+                misfit("(in place: only the family eq)");
+            bool contig = x.A.kind == K_CONTIG || x.B.kind == K_CONTIG || x.C.kind == K_CONTIG;
+            bool strided = x.A.kind == K_STRIDE || x.B.kind == K_STRIDE || x.C.kind == K_STRIDE;
+            uint64_t s = contig ? 1 : (x.C.kind == K_STRIDE ? x.C.stride : (x.A.kind == K_STRIDE ? x.A.stride : x.B.stride));
+            if (s == 0)
+                s = 1;
+            std::vector<uint64_t> seq(L);
+            for (int k = 0; k < L; k++)
+                seq[k] = (contig || strided) ? (uint64_t)k * s : x.C.idx[k];
+            for (auto *X : ops)
+            {
+                X->stride = X->kind == K_STRIDE ? s : 0;
+                if (X->kind == K_INDEX)
+                    X->idx = seq;
+            }
+        }
+        else if (x.A.kind == K_INDEX || x.B.kind == K_INDEX)
+        {
+            // the index list of one operand is derived from the address sequence of the other
+            Operand &D = x.B.kind == K_INDEX ? x.B : x.A;
+            Operand &R = &D == &x.B ? x.A : x.B;
+            if (des == DF_PERM)
+            {
+                if (R.kind == K_STRIDE && R.stride == 0)
+                    R.stride = 1;
+                if (R.kind == K_INDEX && !all_distinct(R.idx))
+                    R.idx = distinct(rs, L, 3000);
+            }
+            D.idx = related(rs, des, addrs(R), dl, false);
+        }
+        else
+        {
+            // contiguous / strided on both sides: the address sequences are identical or agree in lane 0 only
+            bool can_differ = x.A.kind == K_STRIDE || x.B.kind == K_STRIDE;
+            if (des == DF_EQ)
+            {
+                uint64_t s = (x.A.kind == K_CONTIG || x.B.kind == K_CONTIG) ? 1 : x.A.stride;
+                x.A.stride = x.A.kind == K_STRIDE ? s : 0;
+                x.B.stride = x.B.kind == K_STRIDE ? s : 0;
+            }
+            else if (des == DF_ANY && can_differ)
+            {
+                if (addrs(x.A) == addrs(x.B))
+                    (x.B.kind == K_STRIDE ? x.B : x.A).stride += 1 + rs.below(3);
+            }
+            else
+                misfit("(no index list to shape)");
+        }
+    }
+    if (dlv == DL_WORD)
+    {
+        // the relation is one between the words the call finds: every lane of an array operand in a cell of its own
+        if (al != AL_NONE || (des == DF_PERM && (is_scalar(x.A) || is_scalar(x.B))) || des == DF_ANY)
+            misfit("(word level)");
+        for (Operand *X : {&x.A, &x.B})
+        {
+            if (X->kind == K_STRIDE && X->stride == 0)
+                X->stride = 1;
+            if (X->kind == K_INDEX && !all_distinct(X->idx))
+                X->idx = distinct(rs, L, 40);
+        }
+    }
     if (al == AL_CA || al == AL_CB)
     {
         // in place: one array (or register variable) and one address map for the operand and the result
@@ -427,11 +644,49 @@ static void do_call(vh::Out &o, const std::vector<std::string> &t)
         fprintf(stderr, "alias mode %s does not fit row %s\n", ALN[al], row.id);
         _exit(2);
     }
+    if (dlv == DL_BASE)
+    {
+        // owner of the array: operand a, or the operand that IS the result (in place); the other one shares its base pointer
+        Operand &S = al == AL_CB ? x.A : x.B;
+        Operand &O = al == AL_CB ? x.B : x.A;
+        S.base = &O;
+        S.pad = 0;
+        (O.same ? *O.same : O).minext = S.extent();
+        if (ixo)
+        {
+            if (S.kind != K_INDEX || O.kind != K_INDEX || S.idx != O.idx)
+                misfit("(one index-list object needs two equal index lists)");
+            S.ixo = &O;
+        }
+    }
+    else if (ixo)
+        misfit("(ixo)");
     uint64_t va[8], vb[8];
     for (int k = 0; k < 8; k++)
     {
         va[k] = value(rs, vmode, k);
         vb[k] = value(rs, vmode, k + 1);
+    }
+    if (dlv == DL_WORD)
+    {
+        std::vector<uint64_t> ref, rel;
+        if (is_scalar(x.B) || (!is_scalar(x.A) && (seed & 1)))
+        {
+            // b is the reference (all lanes of a broadcast b hold one word), a is shaped after it
+            ref.assign(vb, vb + L);
+            if (is_scalar(x.B))
+                std::fill(ref.begin(), ref.end(), vb[0]);
+            rel = related(rs, des, ref, dl, true);
+            std::copy(rel.begin(), rel.end(), va);
+        }
+        else
+        {
+            ref.assign(va, va + L);
+            if (is_scalar(x.A))
+                std::fill(ref.begin(), ref.end(), va[0]);
+            rel = related(rs, des, ref, dl, true);
+            std::copy(rel.begin(), rel.end(), vb);
+        }
     }
     RunOut r0, r1;
     one_run(row, x, va, vb, seed, 0, al, aj, r0);
@@ -449,6 +704,11 @@ static void do_call(vh::Out &o, const std::vector<std::string> &t)
     o.num("nl", L);
     o.str("alias", ALN[al]);
     o.num("aj", aj);
+    o.str("dlv", DLN[dlv]);
+    o.str("des", DFN[des]);
+    o.num("dl", dl);
+    o.boolean("ixo", ixo);
+    o.num("esh", dlv == DL_BASE ? (long long)std::max(x.A.extent(), x.B.extent()) : 0);
     long long pads[3] = {(long long)x.A.pad, (long long)x.B.pad, (long long)x.C.pad};
     o.intarr("pad", pads, 3);
     const char *sk[3] = {"sa", "sb", "sc"}, *ik[3] = {"ia", "ib", "ic"}, *ak[3] = {"aa", "ab", "ac"}, *ek[3] = {"ea", "eb", "ec"};
@@ -481,6 +741,7 @@ static void do_par(vh::Out &o, const std::vector<std::string> &t)
     int nt = atoi(t[4].c_str());
     size_t pad = (size_t)atoi(t[5].c_str());
     vh::Rng r(vh::parse_u64(t[6]));
+    int env = t.size() > 7 ? atoi(t[7].c_str()) : 0;
     bool cpy = fn == "parcpy";
     Arena src, dst;
     src.make(size, 0xC7);
@@ -491,15 +752,18 @@ static void do_par(vh::Out &o, const std::vector<std::string> &t)
     for (uint64_t i = 0; i < size + pad; i++)
         dst.g.p[i] = i < size ? (cpy ? ~src.g.p[i] : (r.next() | 1)) : r.next(); // differs from the expected word everywhere
     dst.snapshot();
-    if (cpy)
-        Goldilocks::parcpy((E *)dst.g.p, (const E *)src.g.p, size, nt);
-    else
-        Goldilocks::parSetZero((E *)dst.g.p, size, nt);
+    vh::with_env(env, [&]() {
+        if (cpy)
+            Goldilocks::parcpy((E *)dst.g.p, (const E *)src.g.p, size, nt);
+        else
+            Goldilocks::parSetZero((E *)dst.g.p, size, nt);
+    });
     o.begin("par");
     o.num("ci", ci);
     o.str("fn", fn);
     o.num("size", (long long)size);
     o.num("nt", nt);
+    o.num("env", env);
     o.num("pad", (long long)pad);
     o.w64arr("src", src.g.p, size);
     o.w64arr("d0", dst.snap.data(), size + pad);
